@@ -172,7 +172,7 @@ def _compute_rechunk(old_name, old_chunks, chunks, level, name):
         # Iterate over the old blocks required to build the new block
         for rec_cat_index, ind_slices in enumerate(cross1):
             old_block_index, slices = zip(*ind_slices)
-            name = (split_name, next(split_name_suffixes))
+            split_key = (split_name, next(split_name_suffixes))
             old_index = old_blocks[old_block_index][1:]
             if all(
                 slc.start == 0 and slc.stop == old_chunks[i][ind]
@@ -180,12 +180,12 @@ def _compute_rechunk(old_name, old_chunks, chunks, level, name):
             ):
                 rec_cat_arg_flat[rec_cat_index] = old_blocks[old_block_index]
             else:
-                intermediates[name] = (
+                intermediates[split_key] = (
                     operator.getitem,
                     old_blocks[old_block_index],
                     slices,
                 )
-                rec_cat_arg_flat[rec_cat_index] = name
+                rec_cat_arg_flat[rec_cat_index] = split_key
 
         assert rec_cat_index == rec_cat_arg.size - 1
 
@@ -197,4 +197,4 @@ def _compute_rechunk(old_name, old_chunks, chunks, level, name):
 
     del old_blocks, new_index
 
-    return name, chunks, {**x2, **intermediates}
+    return merge_name, chunks, {**x2, **intermediates}
